@@ -25,7 +25,7 @@ THEOREMS = ["consts_documented", "window_bound", "window_bound_fill", "seqs_dist
             "callback_at_most_once", "done_all_called", "callback_own_seq", "seq_fixed", "tries_bound",
             "sends_numbered", "send_bound", "timeout_only_after_all_tries", "no_early_retransmit",
             "fatal_raises", "fatal_raises_iter", "fatal_raises_run", "fatal_only_from_reply",
-            "retryable_ignored"]
+            "retryable_ignored", "seq_injective", "callback_own_reply", "own_reply_wrap_counterexample"]
 
 RULE = ("cases = (window 1-8, tries 1-5, timeout 2-6 ticks, sequence mask 0xffff or small, 1-3 bursts of 0-40 commands with "
         "per-command extra timeouts on one connection, per-datagram outcome script drawn from {ok with latency, request/"
